@@ -1182,9 +1182,8 @@ void MatrixMoorePenrosePseudoinverse(matrix *m, matrix *inv)
 
   /*(A'A)-1*/
   NewMatrix(&i_m_t_m, m_t_m->row, m_t_m->col);
-  //MatrixLUInversion(m_t_m, i_m_t_m);
-  MatrixPseudoinversion(m_t_m, i_m_t_m);
-  
+  MatrixInversion(m_t_m, i_m_t_m);
+
   DelMatrix(&m_t_m);
 
   /*(A'A)-1 A*/
